@@ -94,15 +94,17 @@ impl Scenario for S2 {
         let n = sw.range(1, 3);
         let mut tasks = Vec::new();
         for _ in 0..n {
-            let key = match sw.below(4) {
+            let key = match sw.below(5) {
                 0 => vec![0u8; 32],
                 1 => vec![0xff; 32],
+                2 => st.data.boundary_words(32),
                 _ => st.data.bytes(32),
             };
             let nl = if sw.chance(1, 2) { 8 } else { 12 };
-            let nonce = match sw.below(4) {
+            let nonce = match sw.below(5) {
                 0 => vec![0u8; nl],
                 1 => vec![0xff; nl],
+                2 | 3 => st.data.boundary_words(nl),
                 _ => st.data.bytes(nl),
             };
             tasks.push(J::obj().set("key", J::S(hex(&key))).set("nonce", J::S(hex(&nonce))).set("kalign", J::U(st.place.below(16) as u128)));
